@@ -17,6 +17,7 @@ RULE = (
     'final displacement or a non-orthogonal cell, and at least one face crossing; distinct = SHA-1 of the walk.'
 )
 RULE += ' Added in rounds 6-9: result retention; re-query after extend(); a second run of the same shape analysed while the first result is held; atomic-unit and arbitrary time steps.'
+RULE += ' Round 14: an atom on dyadic coordinates that moves and returns exactly to its first position (final accumulated displacement 0.0).'
 RULE += ' Round 12: one run (four in the thorough tier) of 1.45-1.9 million atom-frames with 3, 5 or 7 atoms, compared with the direct time-origin average at ~50 sampled lags.'
 ASSUMPTIONS = [
     'total time is n_frames x time_step (the library\'s documented total_time)',
@@ -105,6 +106,18 @@ def run_unit(unit, rng, ctx):
     U = gen.random_walk(rng, T, N, max_step=float(rng.choice([0.05, 0.2, 0.4])), drift=drift, p_still=0.1)
     if np.abs(np.diff(U, axis=0)).max() >= 0.49:
         U = U[0:1] + (U - U[0:1]) * (0.45 / np.abs(np.diff(U, axis=0)).max())
+    if unit['i'] % 6 == 4 and T >= 4 and not huge:
+        # an atom that hops away and returns EXACTLY to where it started (dyadic coordinates: the accumulated
+        # displacement of the last frame is 0.0 bit for bit), next to atoms that end elsewhere
+        a_loop = int(rng.integers(N))
+        st_l = rng.choice([-0.25, -0.125, 0.0, 0.125, 0.25], size=(T, 3))
+        st_l[0] = 0
+        st_l[-1] = -st_l[:-1].sum(axis=0)
+        while np.abs(st_l[-1]).max() >= 0.5:
+            st_l[1 : T - 1] *= 0.5
+            st_l[-1] = -st_l[:-1].sum(axis=0)
+        U[:, a_loop] = np.array([0.25, 0.5, 0.375]) + np.cumsum(st_l, axis=0)
+        ctx.count('atoms_returning_exactly_to_their_first_position')
     # time steps: round femtosecond values, atomic-unit steps, arbitrary values over two decades
     dt = float(rng.choice([1e-15, 2e-15, 5e-16, 20 * 2.4188843265857e-17, 1.2345678e-15, float(10.0 ** rng.uniform(-16.5, -14))]))
     names = [str(x) for x in rng.choice(['Li', 'Na', 'S'], size=N)]
